@@ -314,6 +314,12 @@ def _run(case, res):
                     g0 = outcome(lambda: obj[0])
                     if g0 != ("exc", "RuntimeError"):
                         fail("closed-file", f"read on the closed file -> {_short(g0)}, documented RuntimeError")
+                    if c % 3 == 2:
+                        # while the object is closed the source gets a new modification time, its bytes stay what they were (touch, a
+                        # restore from a backup): the pending edits of the object are still there after open()
+                        os.utime(src, (1_600_000_000 + 1000 * (a % 50 + 1), 1_600_000_000 + 1000 * (a % 50 + 1)))
+                        st0 = (sha(src), os.stat(src).st_mtime_ns, os.stat(src).st_size)
+                        res.count("sources_touched_while_the_object_was_closed")
                     obj.open()
                     j = (i + 1) % n
                     desc = f"f[{i}], close(), open(), f[{j}]"
